@@ -93,11 +93,17 @@ pub fn worker(scn: &dyn Scenario, tier: Tier, seed: u64, w: u64, nw: u64, total:
     let mut st = Stats::default();
     let mut out = WorkerOut::default();
     let all_digests = env_u64("VERIF_ALL_DIGESTS", 0) == 1;
+    let trace_idx = env_u64("VERIF_TRACE_IDX", 0) == 1;
     let mut idx = w;
     while idx < total {
         if t0.elapsed() > wallcap {
             out.timed_out = true;
             break;
+        }
+        if trace_idx {
+            use std::io::Write;
+            println!("IDX {}", idx);
+            std::io::stdout().flush().ok();
         }
         let (spec, r, dg) = one_run(scn, tier, seed, idx, &mut st);
         out.runs += 1;
@@ -282,7 +288,59 @@ pub fn parent(scn: &dyn Scenario, tier: Tier, seed: u64) -> i32 {
     let wallcap = env_u64("VERIF_WALLCAP", if tier == Tier::Quick { 150 } else { 1500 });
     let exe = std::env::current_exe().expect("current_exe");
 
-    let (outs, mut harness_errors) = spawn_workers(&exe, id, tier, seed, nw, total, wallcap, false);
+    let (outs, mut harness_errors, died) = spawn_workers_x(&exe, id, tier, seed, nw, total, wallcap, false);
+    // A worker killed by a signal (stack overflow, abort): for C14 that is a violation - find the
+    // run, shrink it with fresh processes, report it. Other properties cannot decide anything then.
+    let mut crash_lines: Vec<String> = Vec::new();
+    if id == "C14" && !died.is_empty() {
+        let replays = verif_dir().join("replays");
+        std::fs::create_dir_all(&replays).ok();
+        for w in &died {
+            if let Some(idx) = crash_hunt(&exe, id, tier, seed, *w, nw, total) {
+                let mut rng = Prng::new(run_seed(seed, id, idx));
+                let spec = scn.generate(&mut rng, tier);
+                let path = replays.join(format!("{}-{}-{}.json", id, seed, idx));
+                let mut rf = ReplayFile {
+                    property: id.to_string(),
+                    class: "C14/crash".into(),
+                    key: format!("{}:{}", spec.kind.map(|k| k.name()).unwrap_or("?"), spec.variant),
+                    detail: format!("run {} kills the process (stack overflow / abort) instead of returning", idx),
+                    verif_seed: seed,
+                    run_index: idx,
+                    tier: tier.name().to_string(),
+                    shrink_steps: 0,
+                    spec: spec.clone(),
+                };
+                if !crashes_in_fresh_process(&exe, &rf, &path) {
+                    continue;
+                }
+                // shrink with fresh processes (the executor cannot survive the crash itself)
+                let t_shrink = Instant::now();
+                'outer: loop {
+                    for c in scn.shrink(&rf.spec) {
+                        if t_shrink.elapsed() > Duration::from_secs(40) {
+                            break 'outer;
+                        }
+                        let mut cand = rf.clone();
+                        cand.spec = c;
+                        cand.shrink_steps += 1;
+                        let tmp = replays.join(format!("{}-{}-{}.cand.json", id, seed, idx));
+                        if crashes_in_fresh_process(&exe, &cand, &tmp) {
+                            rf = cand;
+                            std::fs::remove_file(&tmp).ok();
+                            continue 'outer;
+                        }
+                        std::fs::remove_file(&tmp).ok();
+                    }
+                    break;
+                }
+                std::fs::write(&path, serde_json::to_string_pretty(&rf).unwrap()).ok();
+                println!("violation: class={} key={} run={} detail={}", rf.class, rf.key, idx, rf.detail);
+                crash_lines.push(format!("VIOLATION property={} replay={}", id, path.display()));
+                harness_errors.retain(|e| !e.starts_with(&format!("worker {} exited", w)));
+            }
+        }
+    }
 
     // merge
     let mut st = Stats::default();
@@ -388,7 +446,7 @@ pub fn parent(scn: &dyn Scenario, tier: Tier, seed: u64) -> i32 {
             }
         }
     }
-    if !missing.is_empty() && violation_lines.is_empty() {
+    if !missing.is_empty() && violation_lines.is_empty() && crash_lines.is_empty() {
         harness_errors.push(format!("required probes never fired: {:?}", missing));
     }
 
@@ -438,7 +496,7 @@ pub fn parent(scn: &dyn Scenario, tier: Tier, seed: u64) -> i32 {
         },
         "assumptions": scn.assumptions(),
         "wall_s": wall,
-        "violations": violation_lines.len(),
+        "violations": violation_lines.len() + crash_lines.len(),
     });
     let evdir = verif_dir().join("evidence");
     std::fs::create_dir_all(&evdir).ok();
@@ -458,10 +516,10 @@ pub fn parent(scn: &dyn Scenario, tier: Tier, seed: u64) -> i32 {
     for l in &known_lines {
         println!("{}", l);
     }
-    for l in &violation_lines {
+    for l in violation_lines.iter().chain(crash_lines.iter()) {
         println!("{}", l);
     }
-    if !violation_lines.is_empty() {
+    if !violation_lines.is_empty() || !crash_lines.is_empty() {
         return 1;
     }
     if !harness_errors.is_empty() {
@@ -477,6 +535,13 @@ pub fn parent(scn: &dyn Scenario, tier: Tier, seed: u64) -> i32 {
 
 /// Spawn `nw` worker processes of `exe` and collect their outputs.
 pub fn spawn_workers(exe: &std::path::Path, id: &str, tier: Tier, seed: u64, nw: u64, total: u64, wallcap: u64, all_digests: bool) -> (Vec<WorkerOut>, Vec<String>) {
+    let (o, e, _) = spawn_workers_x(exe, id, tier, seed, nw, total, wallcap, all_digests);
+    (o, e)
+}
+
+/// as `spawn_workers`, additionally returning the numbers of the workers that died (killed by a
+/// signal: stack overflow, abort, ...) instead of finishing
+pub fn spawn_workers_x(exe: &std::path::Path, id: &str, tier: Tier, seed: u64, nw: u64, total: u64, wallcap: u64, all_digests: bool) -> (Vec<WorkerOut>, Vec<String>, Vec<u64>) {
     let mut children = Vec::new();
     for w in 0..nw {
         let mut cmd = Command::new(exe);
@@ -500,11 +565,15 @@ pub fn spawn_workers(exe: &std::path::Path, id: &str, tier: Tier, seed: u64, nw:
     }
     let mut outs: Vec<WorkerOut> = Vec::new();
     let mut harness_errors: Vec<String> = Vec::new();
+    let mut died: Vec<u64> = Vec::new();
     for (w, mut ch) in children.into_iter().enumerate() {
         let mut s = String::new();
         ch.stdout.take().unwrap().read_to_string(&mut s).ok();
         let status = ch.wait().expect("wait");
         if !status.success() {
+            if status.code().is_none() || status.code() == Some(134) {
+                died.push(w as u64);
+            }
             harness_errors.push(format!("worker {} exited with {:?}", w, status));
             continue;
         }
@@ -513,7 +582,32 @@ pub fn spawn_workers(exe: &std::path::Path, id: &str, tier: Tier, seed: u64, nw:
             _ => harness_errors.push(format!("worker {}: unparsable output", w)),
         }
     }
-    (outs, harness_errors)
+    (outs, harness_errors, died)
+}
+
+/// Re-run the slice of a worker that died, with the run index printed before every run: the last
+/// index printed is the run during which the process was killed.
+pub fn crash_hunt(exe: &std::path::Path, id: &str, tier: Tier, seed: u64, w: u64, nw: u64, total: u64) -> Option<u64> {
+    let out = Command::new(exe)
+        .args(["worker", id, tier.name(), &seed.to_string(), &w.to_string(), &nw.to_string(), &total.to_string(), "3600"])
+        .env("VERIF_TRACE_IDX", "1")
+        .stdin(Stdio::null())
+        .stderr(Stdio::null())
+        .output()
+        .ok()?;
+    if out.status.success() {
+        return None;
+    }
+    String::from_utf8_lossy(&out.stdout).lines().rev().find_map(|l| l.strip_prefix("IDX ").and_then(|x| x.trim().parse().ok()))
+}
+
+/// true when executing `spec` (as a replay file) in a fresh process kills the process
+pub fn crashes_in_fresh_process(exe: &std::path::Path, rf: &ReplayFile, path: &std::path::Path) -> bool {
+    std::fs::write(path, serde_json::to_string_pretty(rf).unwrap()).ok();
+    match Command::new(exe).args(["replay", path.to_str().unwrap()]).stdin(Stdio::null()).stdout(Stdio::null()).stderr(Stdio::null()).status() {
+        Ok(st) => st.code().is_none() || st.code() == Some(134),
+        Err(_) => false,
+    }
 }
 
 // ------------------------------------------------------------------------------------------
@@ -534,10 +628,17 @@ pub fn parent_c18(scn: &dyn Scenario, tier: Tier, seed: u64, bins: &[(String, St
     let mut samples: Vec<Spec> = Vec::new();
     let mut runs_total = 0u64;
     let mut per_cfg_stats = BTreeMap::new();
+    let mut crashed_runs: Vec<(u64, String)> = Vec::new();
     for (ci, (name, path)) in bins.iter().enumerate() {
         let tc = Instant::now();
-        let (outs, errs) = spawn_workers(std::path::Path::new(path), id, tier, seed, nw, total, wallcap, true);
-        harness_errors.extend(errs.into_iter().map(|e| format!("[{}] {}", name, e)));
+        let (outs, errs, died) = spawn_workers_x(std::path::Path::new(path), id, tier, seed, nw, total, wallcap, true);
+        for w in &died {
+            // the run that kills this configuration; whether the others survive it is decided below
+            if let Some(idx) = crash_hunt(std::path::Path::new(path), id, tier, seed, *w, nw, total) {
+                crashed_runs.push((idx, name.clone()));
+            }
+        }
+        harness_errors.extend(errs.into_iter().filter(|e| !(e.contains("exited with") && !died.is_empty())).map(|e| format!("[{}] {}", name, e)));
         let mut m = BTreeMap::new();
         let mut runs = 0;
         let mut panics = 0;
@@ -585,6 +686,11 @@ pub fn parent_c18(scn: &dyn Scenario, tier: Tier, seed: u64, bins: &[(String, St
             }
         }
     }
+    // a run that kills one configuration is compared like any other: the marker is "the process died"
+    for (idx, cfg) in &crashed_runs {
+        let other = bins.iter().find(|b| b.0 != *cfg).map(|b| b.0.clone()).unwrap_or_default();
+        diffs.push((*idx, other, cfg.clone()));
+    }
     diffs.sort();
     let mut violation_lines = Vec::new();
     let mut known_lines = Vec::new();
@@ -621,17 +727,43 @@ pub fn parent_c18(scn: &dyn Scenario, tier: Tier, seed: u64, bins: &[(String, St
                 .args(["corpus-one", path.to_str().unwrap()])
                 .output()
                 .ok()
-                .map(|o| String::from_utf8_lossy(&o.stdout).split_whitespace().filter_map(|t| t.parse::<u64>().ok()).collect())
+                .map(|o| {
+                    if o.status.code().is_none() || o.status.code() == Some(134) {
+                        // the process was killed while executing this spec
+                        return vec![0xDEAD_DEAD];
+                    }
+                    String::from_utf8_lossy(&o.stdout).split_whitespace().filter_map(|t| t.parse::<u64>().ok()).collect()
+                })
                 .unwrap_or_default()
         };
-        let (va, vb) = (per_op(&pa), per_op(&pb));
+        let (mut va, mut vb) = (per_op(&pa), per_op(&pb));
+        let (mut a, mut b) = (a.clone(), b.clone());
+        if va == vb && va == vec![0xDEAD_DEAD] {
+            // both of these configurations die on the run: look for one that survives it
+            for (name, bin) in bins.iter() {
+                let v = per_op(bin);
+                if v != va {
+                    a = name.clone();
+                    va = v;
+                    break;
+                }
+            }
+            let _ = &mut vb;
+            let _ = &mut b;
+        }
+        let (a, b) = (&a, &b);
         if va == vb {
             harness_errors.push(format!("digest difference of run {} between {} and {} did not reproduce in fresh processes", idx, a, b));
             continue;
         }
+        if va == vec![0xDEAD_DEAD] || vb == vec![0xDEAD_DEAD] {
+            rf.class = "C18/crash_in_some_configurations".into();
+            rf.detail = format!("run {} kills the process in configuration {} and returns values in {}", idx, if va == vec![0xDEAD_DEAD] { a } else { b }, if va == vec![0xDEAD_DEAD] { b } else { a });
+            std::fs::write(&path, serde_json::to_string_pretty(&rf).unwrap()).expect("write replay");
+        }
         // minimise: cut the history after the first differing operation
         let first = va.iter().zip(vb.iter()).position(|(x, y)| x != y).unwrap_or(va.len().min(vb.len()));
-        if first < spec.ops.len() {
+        if first < spec.ops.len() && va.len() > 1 && vb.len() > 1 {
             rf.spec.ops.truncate(first + 1);
             rf.shrink_steps = 1;
             rf.detail = format!("{}; first differing operation: #{} {:?}", rf.detail, first, spec.ops[first]);
